@@ -86,12 +86,18 @@ def arg_tuples(cls, name, H, rng):
     # generic fallback for methods this table does not know (new mutators are probed too): argument tuples of arity 0..3
     # over small pools of existing / new nodes and edges, lists and pairs of them
     import itertools as _it
-    pool = [n0, n1, 77, e0, e1, "brandnew", [n0, n1], [n0, 77], [[n0, 77]], ([7, 8], [n0]), {"zz": [n0, n1]}, True, "in", "out"]
+    other = cls()
+    try:
+        (other.add_simplex if cls is xgi.SimplicialComplex else other.add_edge)(([70], [71]) if directed else [70, 71])
+    except Exception:  # noqa
+        pass
+    pool = [n0, n1, 77, e0, e1, "brandnew", [n0, n1], [n0, 77], [[n0, 77]], ([7, 8], [n0]), {"zz": [n0, n1]}, True, "in", "out",
+            other, {n0: "renamed", n1: "renamed2"}, {e0: "renamed"}, "k"]
     out = [((), {})]
     for ar in (1, 2, 3):
         combos = list(_it.product(pool, repeat=ar))
         rng.shuffle(combos)
-        out += [(c, {}) for c in combos[: {1: 14, 2: 40, 3: 40}[ar]]]
+        out += [(c, {}) for c in combos[: {1: 18, 2: 48, 3: 40}[ar]]]
     return out
 
 
@@ -101,10 +107,20 @@ LIB_INPLACE = {
 }
 
 
+MUTATION_DUNDERS = ("__setitem__", "__delitem__", "__setattr__", "__delattr__")
+
+
+def is_mutation_dunder(name):
+    """operator methods through which an object is changed in place: `H <<= G`, `H |= G`, `del H[x]`, `H[x] = y` ..."""
+    return name in MUTATION_DUNDERS or (name.startswith("__i") and name.endswith("__") and name not in ("__init__", "__iter__", "__init_subclass__", "__index__", "__int__", "__invert__"))
+
+
 def candidates(cls):
     out = []
     for name, member in inspect.getmembers(cls):
-        if name.startswith("_") or isinstance(inspect.getattr_static(cls, name), property):
+        if name.startswith("_") and not (is_mutation_dunder(name) and any(name in k.__dict__ for k in cls.__mro__ if k is not object)):
+            continue
+        if isinstance(inspect.getattr_static(cls, name), property):
             continue
         if callable(member):
             out.append(name)
@@ -154,6 +170,30 @@ def probe(ctx):
                                   detail=f"{cname}.{name}{args}{kw} on a frozen network raised {type(excB).__name__ if excB else 'nothing'} instead of XGIError")
                 if not B.is_frozen:
                     ctx.violation(f"{cname}.{name}", "is-frozen-lost", case, detail="is_frozen became False")
+        # SimplicialComplex once more on a fixture whose simplices are stored as plain sets (the inherited
+        # random_edge_shuffle leaves them so): inherited methods that die on a frozenset before writing do write there
+        if cls is xgi.SimplicialComplex:
+            def shuffled():
+                S = build(cls, rng)
+                import random as _r
+                _r.seed(1)
+                call_quiet(S.random_edge_shuffle, list(S.edges)[0], list(S.edges)[1])
+                return S
+            for name in candidates(cls):
+                for args, kw in arg_tuples(cls, name, shuffled(), rng)[:12]:
+                    A = shuffled()
+                    before = structure(A)
+                    call_quiet(getattr(A, name), *args, **kw)
+                    ctx.evaluations += 1
+                    if structure(A) == before:
+                        continue
+                    B = shuffled(); B.freeze()
+                    before = structure(B)
+                    excB = call_quiet(getattr(B, name), *args, **kw)
+                    case = {"class": cname, "fixture": "after random_edge_shuffle", "method": name, "args": repr(args), "kwargs": repr(kw)}
+                    if structure(B) != before:
+                        ctx.violation(f"{cname}.{name}", "frozen-network-mutated", case,
+                                      detail=f"{cname}.{name}{args}{kw} changed a frozen complex whose simplices are plain sets (raised: {type(excB).__name__ if excB else None})")
         # in-place library functions
         if cls is not xgi.DiHypergraph:
             libs = dict(LIB_INPLACE)
@@ -191,10 +231,37 @@ def probe(ctx):
         exc = call_quiet(C.add_node, 1234)
         if exc is not None or 1234 not in C.nodes:
             ctx.violation(f"{cname}.copy", "copy-not-editable", {"class": cname}, detail=f"copy of a frozen network not editable: {exc!r}")
+        # clones of a frozen network (copy, pickle, deepcopy): `is_frozen` must tell the truth about the clone — reported
+        # frozen => a mutator raises the library's error and changes nothing; reported editable => the edit succeeds — and
+        # an edit of the clone never changes the frozen original
+        import copy as _copy, pickle as _pickle
+        for how, mk in (("copy()", lambda F: F.copy()), ("pickle", lambda F: _pickle.loads(_pickle.dumps(F))),
+                        ("deepcopy", lambda F: _copy.deepcopy(F))):
+            F = build(cls, rng); F.freeze()
+            sF = structure(F)
+            try:
+                with warnings.catch_warnings():
+                    warnings.simplefilter("ignore")
+                    K = mk(F)
+            except Exception:  # noqa
+                continue
+            ctx.evaluations += 1
+            sK = structure(K)
+            exc = call_quiet(K.add_node, 4321)
+            case = {"class": cname, "clone": how}
+            if K.is_frozen and (not isinstance(exc, XGIError) or structure(K) != sK):
+                ctx.violation(f"{cname}.is_frozen", "clone-reports-frozen-but-is-editable", case,
+                              detail=f"{how} of a frozen {cname}: is_frozen=True but add_node -> {exc!r}, changed={structure(K) != sK}")
+            if not K.is_frozen and exc is not None:
+                ctx.violation(f"{cname}.is_frozen", "clone-reports-editable-but-refuses", case,
+                              detail=f"{how} of a frozen {cname}: is_frozen=False but add_node raised {exc!r}")
+            if structure(F) != sF or not F.is_frozen:
+                ctx.violation(f"{cname}.{how}", "frozen-network-mutated", case, detail=f"editing the {how} of a frozen {cname} changed the frozen original")
         if True:   # all three classes: a class subhypergraph() does not support simply raises and is skipped
             import inspect as _insp
             params = _insp.signature(xgi.subhypergraph).parameters
-            variants = [dict(nodes=[0, 1, 2, 3]), dict(edges=list(build(cls, rng).edges)[:2]), dict(nodes=[0, 1, 2, 3, 9], edges=list(build(cls, rng).edges)[:2]), dict()]
+            variants = [dict(nodes=[0, 1, 2, 3]), dict(edges=list(build(cls, rng).edges)[:2]), dict(nodes=[0, 1, 2, 3, 9], edges=list(build(cls, rng).edges)[:2]), dict(),
+                        dict(nodes=[]), dict(edges=[]), dict(nodes=[], edges=[]), dict(nodes=[9]), dict(nodes=[5]), dict(nodes=list(build(cls, rng).nodes))]
             flags = [{}]
             for pname, par in params.items():   # every boolean option of subhypergraph, both values
                 if isinstance(par.default, bool):
@@ -210,6 +277,9 @@ def probe(ctx):
                     b = structure(S)
                     exc = call_quiet(S.add_node, 99)
                     exc2 = call_quiet(S.remove_node, 0) if 0 in S.nodes else XGIError("n/a")
+                    adder = S.add_simplex if cls is xgi.SimplicialComplex else S.add_edge
+                    exc3 = call_quiet(adder, ([1], [2]) if cls is xgi.DiHypergraph else [1, 2])
+                    exc = exc if isinstance(exc3, XGIError) else exc3
                     if not S.is_frozen or not isinstance(exc, XGIError) or not isinstance(exc2, XGIError) or structure(S) != b:
                         ctx.violation("subhypergraph", "result-not-frozen", {"class": cname, "kwargs": repr(kw)},
                                       detail=f"subhypergraph({kw}) result: is_frozen={S.is_frozen}, add_node -> {exc!r}, remove_node -> {exc2!r}")
